@@ -106,6 +106,12 @@ func init() {
 	commonJust["attestation/yubiattest.ModHex|index alloc<[8]byte>[:const(8)][(phi{(↺+const(2))|phi{(const(0)+const(2))|const(0)}}+const(1))]"] = "dst index+1, same argument: C16.R4 decides 2*len(serial)+offset == 8 in each admitted arm"
 	// crypto/ecdh PublicKey.Bytes() is the uncompressed point: 65 / 97 / 133 bytes for P-256 / P-384 / P-521; a slice
 	// of it in an arm selected by the key's own curve is decided against that length.
+	// the less function handed to sort.Slice / sort.SliceStable over a slice variable indexes that same variable with
+	// its own parameters: the sort only passes indices in [0, len)
+	justShapes = append(justShapes, justShape{
+		why:   "less function handed to sort.Slice over the same slice variable: sort.Slice only passes indices in [0,len)",
+		holds: sortLessGuard,
+	})
 	justShapes = append(justShapes, justShape{
 		why:   "crypto/ecdh Bytes() of a P-256/P-384/P-521 key is 65/97/133 bytes, the arm is selected by the key's own curve and the constant bounds lie within that length",
 		holds: ecdhBytesGuard,
@@ -341,4 +347,70 @@ func c12RespondOnce(c *Ctx) {
 	}
 	c.Floor("R3.respond", nPaths+helperPaths, 20, "paths through one iteration of the request loop (helpers included)")
 	c.Extra["serve_paths"] = nPaths
+}
+
+// sortLessGuard: ins indexes, with a parameter of the enclosing closure, the slice variable that the closure's only
+// use hands to sort.Slice / sort.SliceStable together with the closure; the variable is not stored to inside the
+// closure.
+func sortLessGuard(w *World, fn *ssa.Function, ins ssa.Instruction, facts *Facts, root *ssa.Function) bool {
+	if fn.Parent() == nil || len(fn.Params) != 2 {
+		return false
+	}
+	var x, idx ssa.Value
+	switch v := ins.(type) {
+	case *ssa.IndexAddr:
+		x, idx = v.X, v.Index
+	case *ssa.Index:
+		x, idx = v.X, v.Index
+	default:
+		return false
+	}
+	if p, ok := strip(idx).(*ssa.Parameter); !ok || p.Parent() != fn {
+		return false
+	}
+	// the indexed sequence: a load of a captured variable
+	ld, ok := strip(x).(*ssa.UnOp)
+	if !ok || ld.Op != token.MUL {
+		return false
+	}
+	fv, ok := ld.X.(*ssa.FreeVar)
+	if !ok {
+		return false
+	}
+	for _, r := range *fv.Referrers() {
+		if st, isSt := r.(*ssa.Store); isSt && st.Addr == ssa.Value(fv) {
+			return false
+		}
+	}
+	cell := freeVarBinding(fv)
+	if cell == nil {
+		return false
+	}
+	// the closure is made once and handed to sort.Slice(<load of the same variable>, closure)
+	parent := fn.Parent()
+	n := 0
+	for _, b := range parent.Blocks {
+		for _, pi := range b.Instrs {
+			mc, isMC := pi.(*ssa.MakeClosure)
+			if !isMC || mc.Fn != ssa.Value(fn) {
+				continue
+			}
+			for _, u := range *mc.Referrers() {
+				call, isCall := u.(*ssa.Call)
+				if !isCall {
+					return false
+				}
+				nm := calleeName(call)
+				if (nm != "sort.Slice" && nm != "sort.SliceStable") || len(call.Call.Args) != 2 || call.Call.Args[1] != ssa.Value(mc) {
+					return false
+				}
+				arg, isLd := strip(call.Call.Args[0]).(*ssa.UnOp)
+				if !isLd || arg.X != cell {
+					return false
+				}
+				n++
+			}
+		}
+	}
+	return n == 1
 }
